@@ -641,9 +641,6 @@ class C07(CoreCheck):
 
     def gen_cases(self, ctx, rng, n):
         cases = CoreCheck.gen_cases(self, ctx, rng, n)
-        # "blocks in the kernel only when nothing is due" with a timer population that exercises the heap (interior
-        # cancellations, re-registrations): the family of C04 (seed C07_9: a damaged heap hides a due timer under a later one)
-        cases = cases + heap_traffic_cases(self.backends, rng, max(40, n // 8))
         # work that becomes due while the repeated-deadline kernel timer is ARMED (same far deadline on five consecutive
         # waits): a chain of self-posts of an iv_event (delivered through the loop's internal task), raw-event posts,
         # self-re-registering tasks, started from the 6th..8th wake-up, with the waking descriptor going quiet
@@ -673,6 +670,10 @@ class C07(CoreCheck):
                 secs.append("Hk1:" + rng.choice(["kx0 kr0/-", "kx1 kr1 q/-", "-"]))
             secs += ["Ht0:q", "Hf0:ks0="]
             cases.append(";".join(secs))
+        # "blocks in the kernel only when nothing is due" with a timer population that exercises the heap (interior
+        # cancellations, re-registrations): the family of C04 (seed C07_9: a damaged heap hides a due timer under a later one).
+        # Generated LAST, so that the cases of the families above are the ones earlier seeds were found with.
+        cases = cases + heap_traffic_cases(self.backends, rng, max(40, n // 8))
         return cases
 
 
